@@ -166,13 +166,33 @@ def run_c08(cases):
     outs = [x for x in driver(lines)]
     mism = []
     distinct = set()
+    stats["event_order_not_comparable"] = 0
     for (c, op, impl), model in zip(plan, outs):
         distinct.add(impl)
         if impl != model:
             ri, rm = impl.split(" # ")[0], model.split(" # ")[0]
+            if ri == rm and lazy_sensitive(c["grammar"]):
+                # results agree; only the ORDER of cache operations can differ here (see lazy_sensitive)
+                stats["event_order_not_comparable"] += 1
+                continue
             mism.append({"class": "result" if ri != rm else "events", "op": op, "impl": impl[:600], "model": model[:600],
                          "case": c})
     return plan, mism, stats, len(distinct)
+
+
+def lazy_sensitive(g):
+    """The library's Alternation.lparse is a lazy generator and Rule.lparse filters it through the exclusion test, so for a rule
+    WITH an exclusion whose definition is an alternation of two or more alternatives (directly nested alternations included) the
+    exclusion parse of the first alternative's matches runs BEFORE the later alternatives are tried; the model (EngineProg.ref_p)
+    evaluates the whole alternation first.  Results are the same (the exclusion test is pure; C08_program_is_engine), the order of
+    cache operations, and with a size limit the later hit/miss pattern, are not.  Every other consumer (Concatenation,
+    Repetition, Rule.parse) drains the generator before doing anything else.  For such grammars the event traces are not
+    compared; the results still are, for every request."""
+    def alts(e):
+        if e[0] == "alt":
+            return sum(alts(x) for x in e[2])
+        return 1
+    return any(r.get("excl") is not None and r["def"][0] == "alt" and alts(r["def"]) >= 2 for r in g["rules"])
 
 
 # ------------------------------------------------------------------------------------------------ C13
